@@ -550,9 +550,58 @@ fn own_commit(doc: &mut AutoCommit, rng: &mut Rng) -> bool {
     doc.commit_with(o).is_some()
 }
 
+/// two replicas with the same history each make ONE op: the two ops get the same counter, so their order
+/// (conflict order in a register, order of concurrently inserted elements) is decided by the actors alone
+fn tie_step(a: &mut AutoCommit, b: &mut AutoCommit, rng: &mut Rng) -> Option<String> {
+    a.merge(b).ok()?;
+    b.merge(a).ok()?;
+    let d = match rng.below(5) {
+        0 => {
+            let k = *rng.pick(&["a", "b", "title"]);
+            a.put(ROOT, k, 7i64).ok()?;
+            b.put(ROOT, k, "ab").ok()?;
+            format!("tie put {} int / str", k)
+        }
+        1 => {
+            let t = find_obj(a, "t", ObjType::Text)?;
+            let len = a.length(&t);
+            let pos = rng.below(len as u64 + 1) as usize;
+            a.splice_text(&t, pos, 0, "a").ok()?;
+            b.splice_text(&t, pos, 0, "\u{1F600}").ok()?;
+            format!("tie tsplice {} 'a' / emoji", pos)
+        }
+        2 => {
+            let l = find_obj(a, "l", ObjType::List)?;
+            a.insert(&l, 0, vec![1u8, 2, 3]).ok()?;
+            b.insert(&l, 0, ScalarValue::counter(3)).ok()?;
+            "tie lins 0 bytes / counter".into()
+        }
+        3 => {
+            let k = *rng.pick(&["a", "b"]);
+            a.put_object(ROOT, k, ObjType::Map).ok()?;
+            b.put(ROOT, k, 1.5f64).ok()?;
+            format!("tie put {} map / f64", k)
+        }
+        _ => {
+            let l = find_obj(a, "l", ObjType::List)?;
+            if a.length(&l) == 0 {
+                return None;
+            }
+            a.put(&l, 0, "\u{e9}").ok()?;
+            b.put(&l, 0, ScalarValue::Null).ok()?;
+            "tie lput 0 str / null".into()
+        }
+    };
+    a.commit();
+    b.commit();
+    Some(d)
+}
+
 struct Hist {
     changes: Vec<Change>,
     head_sets: Vec<Vec<ChangeHash>>,
+    /// head sets at which two same-counter ops conflict: compared (and sent to the model) first
+    priority: Vec<Vec<ChangeHash>>,
     log: Vec<String>,
 }
 
@@ -574,6 +623,7 @@ fn build_own(rng: &mut Rng, enc: TextEncoding, profile: usize, n_replicas: usize
         reps.push(f);
     }
     let mut head_sets: Vec<Vec<ChangeHash>> = vec![reps[0].get_heads()];
+    let mut priority: Vec<Vec<ChangeHash>> = vec![];
     let mut next_actor = n_replicas;
     for _ in 0..steps {
         let r = rng.below(n_replicas as u64) as usize;
@@ -587,6 +637,28 @@ fn build_own(rng: &mut Rng, enc: TextEncoding, profile: usize, n_replicas: usize
                 if own_commit(&mut reps[r], rng) {
                     log.push(format!("r{} commit", r));
                     head_sets.push(reps[r].get_heads());
+                }
+            }
+            83..=88 if profile >= 2 || rng.chance(1, 2) => {
+                let o = rng.below(n_replicas as u64) as usize;
+                if o != r {
+                    let (a, b) = if r < o {
+                        let (x, y) = reps.split_at_mut(o);
+                        (&mut x[r], &mut y[0])
+                    } else {
+                        let (x, y) = reps.split_at_mut(r);
+                        (&mut y[0], &mut x[o])
+                    };
+                    if let Some(d) = tie_step(a, b, rng) {
+                        log.push(format!("r{} r{} {}", r, o, d));
+                        head_sets.push(a.get_heads());
+                        head_sets.push(b.get_heads());
+                        let mut both = a.get_heads();
+                        both.extend(b.get_heads());
+                        both.sort();
+                        both.dedup();
+                        priority.push(both);
+                    }
                 }
             }
             83..=96 => {
@@ -625,7 +697,7 @@ fn build_own(rng: &mut Rng, enc: TextEncoding, profile: usize, n_replicas: usize
     head_sets.push(all.get_heads());
     head_sets.sort();
     head_sets.dedup();
-    Hist { changes: all.get_changes(&[]), head_sets, log: log.clone() }
+    Hist { changes: all.get_changes(&[]), head_sets, priority, log: log.clone() }
 }
 
 /// a map whose keys are all 32 ASCII control characters and all 95 printable ASCII characters, one
@@ -654,7 +726,7 @@ fn build_ctlkeys(rng: &mut Rng, enc: TextEncoding, log: &mut Vec<String>) -> His
     d.put(&m, k.as_str(), "again").unwrap();
     d.commit();
     head_sets.push(d.get_heads());
-    Hist { changes: d.get_changes(&[]), head_sets, log: log.clone() }
+    Hist { changes: d.get_changes(&[]), head_sets, priority: vec![], log: log.clone() }
 }
 
 // ---------------------------------------------------------------- checks
@@ -920,7 +992,15 @@ fn check_history(rng: &mut Rng, rep: &mut Report, cw: &mut CaseWriter, ui: usize
     hsets.retain(|x| sorted(x.clone()) != final_heads);
     rng.shuffle(&mut hsets);
     hsets.truncate(max_heads.saturating_sub(1));
+    // tie head sets first (at most two), then the final heads
+    let mut pri: Vec<Vec<ChangeHash>> = h.priority.iter().filter(|hs| hs.iter().all(|x| idx1.contains_key(x))).cloned().collect();
+    rng.shuffle(&mut pri);
+    pri.truncate(2);
+    rep.add("tie_head_sets", pri.len() as u64);
     hsets.insert(0, final_heads.clone());
+    for p in pri {
+        hsets.insert(0, p);
+    }
     let mut cases: Vec<(String, serde_json::Value)> = vec![];
     let mut strict_mark_diffs = 0u64;
     for (hi, hs1) in hsets.iter().enumerate() {
@@ -928,7 +1008,7 @@ fn check_history(rng: &mut Rng, rep: &mut Report, cw: &mut CaseWriter, ui: usize
         let hs2: Vec<ChangeHash> = sorted(hs1.iter().map(|x| corr.hmap[x]).collect());
         let cands1 = object_ids(&ancestors_of(&oc, &idx1, &hs1));
         let cands2 = object_ids(&ancestors_of(&ac, &idx2, &hs2));
-        let rp = json!({"universe": ui, "source": source, "encoding": enc_name(enc), "log": h.log, "heads": hexes(&hs1), "final_heads": hi == 0});
+        let rp = json!({"universe": ui, "source": source, "encoding": enc_name(enc), "log": h.log, "heads": hexes(&hs1), "final_heads": hs1 == final_heads});
         if cands1.len() != cands2.len() {
             rep.fail(&["C31"], "anon|state-shape|object-count", &format!("{} objects at these heads, {} in the anonymized document", cands1.len(), cands2.len()), rp.clone());
             continue;
@@ -1099,7 +1179,7 @@ pub fn run(rng: &mut Rng, tier: &str, out: &str) -> Report {
         let mut log: Vec<String> = vec![];
         match guard(|| fam_hist::build_universe(rng, nrep, steps, &cfg, &mut log)) {
             Ok(u) => {
-                let h = Hist { changes: u.changes, head_sets: u.head_sets, log: u.log };
+                let h = Hist { changes: u.changes, head_sets: u.head_sets, priority: vec![], log: u.log };
                 check_history(rng, &mut rep, &mut cw, ui, "hist", TextEncoding::UnicodeCodePoint, &h, k < n_model_hist, max_heads);
             }
             Err(_) => rep.count("generator_panics"),
